@@ -23,4 +23,5 @@ fi
 TS=failed; [ $T -eq 0 ] && TS=passed
 echo "SEEDVERIFY $ID orig_demo=$O tests=$TS changed_demo=$C"
 tail -3 "$W/demo_orig.log" | sed 's/^/   orig: /'; tail -3 "$W/demo_changed.log" | sed 's/^/   changed: /'; grep -E "tests passed|tests failed" "$W/ctest.log" | tail -1 | sed 's/^/   /'
+grep -E "\*\*\*Failed|\*\*\*Timeout|Failed +[0-9.]+ sec" "$W/ctest.log" | head -5 | sed 's/^/   failed: /'
 cd /; git -C /repo worktree remove --force "$W"
